@@ -215,8 +215,8 @@ def replay(cases_path, profile="dev", elem="elem", cap=0, extra_args=(), per_cas
                 d["profile"] = profile
                 failures.append(d)
             elif line.startswith("DONE "):
-                _, n, _f = line.split()
-                ran += int(n)
+                parts = line.split()
+                ran += int(parts[1])
                 done = True
         p.wait()
         th.join(timeout=1)
@@ -239,6 +239,15 @@ def read_case(cases_path, n):
             if i == n:
                 return json.loads(line)
     return None
+
+
+def read_cases(cases_path, wanted):
+    out = {}
+    with open(cases_path) as f:
+        for i, line in enumerate(f):
+            if i in wanted:
+                out[i] = json.loads(line)
+    return out
 
 
 def count_lines(path):
